@@ -27,6 +27,7 @@ QStatuses  == {400, 401, 403, 404, 418, 429, 500, 502, 503, 504}
 TStatuses  == (201..599) \ {204, 304}
 QFlags     == {2, 3, 128, 255}
 TFlags     == 2..255
+MFlags     == {2, 3, 4, 8, 16, 32, 64, 127, 128, 129, 130, 254, 255}
 
 ConnectOnly == {<<"connect">>}
 GProtoSets == {<<"connect">>, <<"connect", "grpc">>, <<"grpc">>, <<"rest">>}
